@@ -187,6 +187,12 @@ DIRECTED = [
     dict(model="pcc", shape=[18, 17, 19], max_shifts=[2.0, 2.0, 2.0], d=[-1.0, 1.0, 1.5], seed=44, cutoff=None, tilt=[-50.0, 65.0], tilt_axis="x", rotvec=[0.2, -0.1, 0.3], dkind="tilt"),
     dict(model="ncc", shape=[18, 18, 18], max_shifts=[2.0, 2.0, 2.0], d=[0.5, 2.0, -1.0], seed=45, cutoff=None, tilt=[-60.0, 60.0], tilt_axis="y", rotvec=None, dkind="tilt"),
     dict(model="zncc", shape=[18, 18, 18], max_shifts=[2.0, 2.0, 2.0], d=[-1.5, 0.5, 1.0], seed=46, cutoff=None, tilt=[-60.0, 50.0], tilt_axis="dual", rotvec=[0.0, 0.3, 0.0], dkind="tilt"),
+    # PCC at the edge of a fractional range whose fractional part is large (the coarse peak lies beyond trunc(m))
+    dict(model="pcc", shape=[18, 18, 18], max_shifts=[2.9, 2.9, 2.9], d=[2.9, -2.9, 1.0], seed=51, cutoff=None, tilt=None, rotvec=None, dkind="corner"),
+    dict(model="pcc", shape=[16, 17, 15], max_shifts=[1.9, 1.9, 1.9], d=[-1.9, 0.5, 1.9], seed=52, cutoff=None, tilt=None, rotvec=None, dkind="corner"),
+    # ZNCC on a grey level comparable to (and larger than) the contrast, non-zero displacement
+    dict(model="zncc", shape=[16, 16, 16], max_shifts=[2.0, 2.0, 2.0], d=[0.4, -1.3, 0.7], seed=53, cutoff=None, tilt=None, rotvec=None, dkind="background", background=1.0),
+    dict(model="zncc", shape=[15, 16, 17], max_shifts=[2.0, 2.0, 2.0], d=[-1.0, 1.5, -0.5], seed=54, cutoff=None, tilt=None, rotvec=None, dkind="background", background=5.0),
     # reproducer of the recorded finding C04-fsc-half-integer-lag
     dict(model="fsc", shape=[14, 14, 14], max_shifts=[1.0, 1.0, 1.0], d=[0.35, 0.45, -0.1], seed=2098463371, cutoff=None, tilt=None, rotvec=None, dkind="small"),
 ]
